@@ -160,7 +160,7 @@ func runC20(c *fw.Ctx) {
 					map[string]interface{}{"doc": name, "base_text": key, "edited_text": text})
 			}
 		}
-		// insertions
+		// insertions (self-delimiting rendering)
 		for _, f := range fr {
 			for pos := 1; pos <= len(nodes); pos++ {
 				if !c.Next() {
@@ -177,6 +177,46 @@ func runC20(c *fw.Ctx) {
 				c.Describe(name + " insert " + f.name + fmt.Sprint(pos))
 				c.Distinct(text)
 				judge("insert", fmt.Sprintf("%s@%d", f.name, pos), text, nil, nil, f.adds, run1(text))
+			}
+		}
+		// insertions into the plain (implicit-context) rendering, the fresh declaration written with
+		// a space or a tab after its keyword. Every fresh kind is a top-level kind that no directive
+		// but MACRO admits, and macros are parenthesised in the pool, so the insertion is still
+		// between top-level blocks.
+		plain := doc.Assemble(blocks)
+		plainKey := doc.Text(plain)
+		var plainBase drv.Outcome
+		var plainE map[string]string
+		havePlain := false
+		for _, f := range fr {
+			for pos := 1; pos <= len(plain); pos++ {
+				for _, sep := range []string{" ", "\t"} {
+					if !c.Next() {
+						continue
+					}
+					if !havePlain {
+						havePlain = true
+						plainBase = run1(plainKey)
+						if plainBase.OK() {
+							plainE, _ = catalogEntries(plainBase)
+						}
+					}
+					if !plainBase.OK() || plainE == nil {
+						continue
+					}
+					c.Count("evaluations", 1)
+					ft := doc.Text(f.nodes())
+					if sep == "\t" {
+						ft = strings.Replace(ft, " ", "\t", 1)
+					}
+					text := doc.Text(plain[:pos]) + ft + doc.Text(plain[pos:])
+					c.Distinct(text)
+					o := run1(text)
+					saveE, saveKey := baseE, key
+					baseE, key = plainE, plainKey
+					judge("insert", fmt.Sprintf("%s-plain%q@%d", f.name, sep, pos), text, nil, nil, f.adds, o)
+					baseE, key = saveE, saveKey
+				}
 			}
 		}
 		// deletions of declarations nothing refers to
